@@ -383,6 +383,9 @@ def replay(data):
     re-evaluate the violated condition on the real remote."""
     from symgit.realgit import RealWorld, RealHost
     from bert_e import exceptions as ex
+    if 'history' in data:
+        from . import histcheck
+        return histcheck.replay('C20', data)
     common.install_common_stubs()
     GF.silence_all()
     c, w, label = data['cfg'], data['world'], data['label']
@@ -531,3 +534,7 @@ def check(rep):
             rep.error('symgit differs from /usr/bin/git: ' + prob)
         else:
             rep.validated += 1
+    # the admin jobs in states reached by real jobs (pull requests queued by the real handler)
+    from . import histcheck
+    histcheck.check(rep, 'C20')
+
